@@ -618,12 +618,16 @@ def bodiesOf (cur : Content G) (name : String) (a : Json) : R (List (Body G)) :=
   | "filter" => pure [filterBody cur (← axisF a "axis") (← listF asStr a "ids") none]
   | "transform" | "norm" | "pa" | "rankdata" =>
     let rows ← listF (asList asRat) a "rows"
-    pure [.transform (← axisF a "axis") (fun _ => rows)]
+    let ax ← axisF a "axis"
+    -- a user function may write into the metadata mappings it is handed (`dict` writes in place)
+    let ups ← optF (asList (asOpt asMd)) a "ups"
+    pure ([.transform ax (fun _ => rows)] ++
+      (match ups with | some u => [Body.addMd ax (u.map (fun x => x.map mdUpdate))] | none => []))
   | "remove_empty" =>
     let stages ← listF (fun st => do pure ((← axisF st "axis"), (← listF asStr st "ids"))) a "stages"
     pure (stages.map (fun st => filterBody cur st.1 st.2 none))
   | "update_ids" => pure [.updateIds (← axisF a "axis") (← listF asStr a "ids")]
-  | "add_metadata" =>
+  | "add_metadata" | "edit_md_value" =>
     let ups ← listF (asOpt asMd) a "ups"
     pure [.addMd (← axisF a "axis") (ups.map (fun u => u.map mdUpdate))]
   | "del_metadata" =>
@@ -636,7 +640,7 @@ def bodiesOf (cur : Content G) (name : String) (a : Json) : R (List (Body G)) :=
 
 def inplaceNames : List String :=
   ["filter", "transform", "norm", "pa", "rankdata", "remove_empty", "update_ids", "add_metadata", "del_metadata",
-   "add_group_metadata"]
+   "add_group_metadata", "edit_md_value"]
 
 /-- the model's operations for one call of the real API -/
 def mkOps (h : Heap G) (ext : List Nat) (c : CallJ) : R (List (Op G)) := do
@@ -664,6 +668,11 @@ def mkOps (h : Heap G) (ext : List Nat) (c : CallJ) : R (List (Op G)) := do
       | "data_samp" | "iter_samp" => some .samp
       | "data_obs" | "iter_obs" | "str" => some .obs
       | _ => none
+    if (← strF a "accessor") == "iter_flip" then
+      -- `iter('sample')` suspended after its first vector, `data(id, 'observation')`, iteration resumed:
+      -- `_get_col`, `_get_row`, and `_get_col` again if there is a second sample
+      let n := ((h.abs t).map (·.samp.length)).getD 0
+      return [.read ([(t, Axis.samp), (t, Axis.obs)] ++ (if n ≥ 2 then [(t, Axis.samp)] else []))]
     pure [.read (ax.map (fun x => (t, x))).toList]
   | "ctor_from_table" =>
     -- `Table(src.matrix_data, src.ids('observation'), src.ids(), src.metadata('observation'), src.metadata())`
